@@ -2,6 +2,8 @@
 
 package consensus
 
+import "github.com/icon-project/goloop/module"
+
 // Thin exports for the /verif conformance drivers (properties C01, C02, C04). Add-only file,
 // compiled only with the build tag "verif"; it does not change any existing behaviour.
 
@@ -24,3 +26,9 @@ func (v *VerifVoteSet) VoteListForOverTwoThirds() *VoteList {
 	return v.vs.voteListForOverTwoThirds()
 }
 func (v *VerifVoteSet) Slot(index int) *VoteMessage { return v.vs.msgs[index] }
+
+// VerifSignerIs reports whether the vote was signed by addr.
+func VerifSignerIs(v *VoteMessage, addr module.Address) bool {
+	a := v.address()
+	return a != nil && a.Equal(addr)
+}
